@@ -5,8 +5,11 @@
 (* every DF17/18 control field x type code x subtype (x version x reserved  *)
 (* hypothesis for TC 31) and every availability pattern of the status-bit   *)
 (* registers; the announced address of an address/parity frame built by the *)
-(* standard's overlay is the overlaid address.  A failure here is a defect  *)
-(* of the specification (tool error), never a verdict about the code.       *)
+(* standard's overlay is the overlaid address; the byte-wise remainder used *)
+(* by Trace_Json is the long division of CRC24.tla (all 256 table entries,  *)
+(* 800 sample frames); CarriesAddress is the stated set of formats.  A      *)
+(* failure here is a defect of the specification (tool error), never a      *)
+(* verdict about the code.                                                  *)
 EXTENDS ModeSFrame
 
 (* the set is forced into a sequence once: TLC does not cache definitions   *)
